@@ -123,6 +123,8 @@ type world struct {
 	shape         [32]byte
 	checks        []func() // invariants evaluated at every quiescent step
 	inflightTasks int
+	// a run that stops for good on a leaked mutex is a violation of this engine's property (see wedge_test.go)
+	wedgeIsViolation bool
 }
 
 func newWorld(seed uint64, prop, engine string) *world {
@@ -130,6 +132,7 @@ func newWorld(seed uint64, prop, engine string) *world {
 	w := &world{seed: seed, rng: newPrng(seed), j: j, start: time.Now()}
 	w.net = newSimNet(seed, j)
 	w.res = &result{Property: prop, Engine: engine, Seed: seed, Faults: map[string]int{}, Probes: map[string]int{}}
+	curWorld = w
 	return w
 }
 
